@@ -494,7 +494,7 @@ def run_check(mod, tier, verif_seed, jobs):
             hits[s] += 1
     for k in known_entries:
         if hits.get(k["sig"]):
-            print(f"KNOWN-FINDING: property={prop} {k['sig']} -- {k.get('what', '')} (hit in {hits[k['sig']]} runs)")
+            print(f"KNOWN-FINDING: property={prop} {k['sig']} -- {k.get('what', '')[:220]} ... (hit in {hits[k['sig']]} runs; full text in known_findings.json)")
     cov = ev["coverage"]
     print(
         f"{prop} tier={tier} seed={verif_seed} runs={cov['evaluations']} nontrivial_distinct={cov['distinct_nontrivial']} "
